@@ -48,6 +48,10 @@ DATASETS = {
     "meeus": ([73.0, 38.0, 35.0, 42.0, 78.0, 68.0, 74.0, 42.0, 52.0, 54.0, 39.0, 61.0],
               [90.4, 125.3, 161.8, 143.4, 52.5, 50.8, 71.5, 152.8, 131.3, 98.5, 144.8, 78.1]),
 }
+DATASETS["skew4"] = ([-3.0, 1.0, 1.5, 2.0], [2.0, -1.0, 0.5, 3.0])
+DATASETS["skew6"] = ([-10.0, 1.0, 2.0, 3.0, 3.5, 4.0], noisy([-10.0, 1.0, 2.0, 3.0, 3.5, 4.0],
+                                                              lambda x: 0.5 * x * x - 2 * x + 1, 0.2))
+DATASETS["skewneg5"] = ([7.0, -1.0, -2.0, -2.5, -3.5], [1.0, 2.0, 0.0, -1.0, 4.0])
 DATASETS["big50"] = ([i * 0.5 - 10 for i in range(50)],
                      noisy([i * 0.5 - 10 for i in range(50)], lambda x: 0.3 * x * x - x + 2, 0.5))
 DATASETS["big200"] = ([i * 0.1 for i in range(200)],
@@ -354,6 +358,15 @@ DEGENERATE = [
 ]
 
 
+for _v in (2.7, 1.1, 12.3, 0.1, 1.0 / 3, 1e3 / 7, 999.9, -512.3, 123.456):
+    for _n in (3, 6, 7, 9):
+        DEGENERATE.append({"xs": [_v] * _n, "ys": [float(i * i % 5) for i in range(_n)],
+                           "calls": ["corr", "linear", "quadratic", "general_x1", "general_x2x1", "general_prop"]})
+for _xs in ([1.0, 2.5, 4.0, 7.5], [100.0, 250.5, 999.9], [-3.0, 1.0, 1.5, 2.0]):
+    DEGENERATE.append({"xs": _xs, "ys": [float(i) - 0.3 * i * i for i in range(len(_xs))],
+                       "calls": ["general_prop", "general_dependent"]})
+
+
 def check_degenerate(case):
     out = []
     cf = CurveFitting([float(x) for x in case["xs"]], [float(y) for y in case["ys"]])
@@ -365,6 +378,12 @@ def check_degenerate(case):
                 r = cf.linear_fitting()
             elif c == "quadratic":
                 r = cf.quadratic_fitting()
+            elif c == "general_x1":
+                r = cf.general_fitting(lambda x: x, lambda x: 1.0)
+            elif c == "general_x2x1":
+                r = cf.general_fitting(lambda x: x * x, lambda x: x, lambda x: 1.0)
+            elif c == "general_prop":
+                r = cf.general_fitting(lambda x: x, lambda x: 3.0 * x)
             elif c == "general_dependent":
                 r = cf.general_fitting(lambda x: x, lambda x: 2.0 * x, lambda x: 1.0)
             else:
